@@ -519,6 +519,45 @@ def install(M):
             ext[nm] = ExtModule(nm)
     ext['builtins'].attrs['range'] = M.builtins['range']
     ext['socket'].attrs.update({'AF_INET': 2, 'AF_INET6': 10, 'IPPROTO_TCP': 6, 'error': BEXC['socket.error']})
+    # ---- flask / flask_httpauth (T3: routing and HTTP basic auth are assumed to behave as documented;
+    #      decorators are transparent for the body, the decorator LISTS are what C16 inspects in the AST)
+    flask_req = Obj('FlaskRequest', {'url': 'http://127.0.0.1:8801/v1/', 'query_string': b'', 'method': 'POST',
+                                     'json': None, 'environ': {}, 'args': {}}, tag='flask.request')
+    M.flask_request = flask_req
+
+    def freq_attr(it, o, attr):
+        if attr == 'get_json':
+            return Builtin('request.get_json', lambda it, a, kw: o.f['json'])
+        return _MISSING
+    M.obj_attr_handlers['FlaskRequest'] = freq_attr
+
+    def jsonify(it, a, kw):
+        return Obj('JsonResponse', {'data': a[0] if a else dict(kw)})
+    M.obj_attr_handlers['JsonResponse'] = lambda it, o, attr: _MISSING
+    transparent = Builtin('decorator', lambda it, a, kw: a[0])
+
+    def deco_factory(it, a, kw):
+        return transparent
+
+    def blueprint_attr(it, o, attr):
+        if attr == 'route':
+            return Builtin('Blueprint.route', deco_factory)
+        return _MISSING
+    M.obj_attr_handlers['Blueprint'] = blueprint_attr
+
+    def auth_attr(it, o, attr):
+        if attr in ('login_required', 'get_password', 'verify_password', 'error_handler'):
+            return transparent
+        return _MISSING
+    M.obj_attr_handlers['HTTPBasicAuth'] = auth_attr
+    ext['flask'].attrs.update({'request': flask_req, 'jsonify': Builtin('flask.jsonify', jsonify),
+                               'Blueprint': Builtin('Blueprint', lambda it, a, kw: Obj('Blueprint', {'name': a[0] if a else ''})),
+                               'Flask': Builtin('Flask', lambda it, a, kw: Obj('FlaskApp', {}))})
+    ext['flask_httpauth'].attrs['HTTPBasicAuth'] = Builtin('HTTPBasicAuth', lambda it, a, kw: Obj('HTTPBasicAuth', {}))
+
+    def wraps(it, a, kw):
+        return transparent
+    ext['functools'].attrs['wraps'] = Builtin('functools.wraps', wraps)
     # radix tree: opaque container (outside every property; C19 states the assumption)
     def radix_attr(it, o, attr):
         if attr in ('add', 'delete'):
